@@ -13,7 +13,7 @@ import (
 	"github.com/M2MGateway/go-smpp/pdu"
 )
 
-func init() { corrTable["C14"] = corrC14 }
+func init() { corrTable["C14"] = func(r *Run) { connInChild(r, corrC14) } }
 
 // respFor builds the response the peer sends for request p stamped with seq.
 func respFor(p interface{}, seq int32) interface{} {
@@ -251,7 +251,7 @@ func c14Forced(r *Run, ts []pduType, idx int) {
 			r.Fail("submit/foreign-response", "Submit returned a response with a foreign sequence number", input, c.Class(), fmt.Sprintf("sequence %d", c.Seq))
 		}
 	}
-	r.Case(fmt.Sprintf("sched#%d %.200s", idx, input), w.CaseExpr("fixed"))
+	r.Case(fmt.Sprintf("sched#%d %.200s", idx, input), w.CaseExpr(connVariant))
 }
 
 // c14Free: the transport of the property text.  After each Write the writer is
@@ -407,5 +407,5 @@ func freeCase(all []*Call, writes []*WriteRec) string {
 		calls = append(calls, fmt.Sprintf("(%d%%nat, %s)", c.ID, c.resTerm()))
 	}
 	obs := fmt.Sprintf("(mkObs %s [] %s 0 false 0)", coqList(calls), coqList(wire))
-	return fmt.Sprintf("sched_matches fixed true %s %s %s", coqList(groups), coqList(snaps), obs)
+	return fmt.Sprintf("sched_matches %s true %s %s %s", connVariant, coqList(groups), coqList(snaps), obs)
 }
